@@ -31,6 +31,15 @@ import (
 type symFrame struct {
 	params map[*ssa.Parameter]string // callee parameter -> caller's key
 	vals   map[ssa.Value]int64
+	// start: begin just after this location instead of at the entry
+	start *Loc
+	// stop: end the run before this instruction (reported in symResult.Stopped)
+	stop func(ssa.Instruction) bool
+}
+
+// symExecAt runs fn from just after `from` until stop(ins) or a return.
+func symExecAt(fn *ssa.Function, from Loc, stop func(ssa.Instruction) bool, env map[string]int64) symResult {
+	return symExecF(fn, env, &symFrame{params: map[*ssa.Parameter]string{}, vals: map[ssa.Value]int64{}, start: &from, stop: stop}, 0)
 }
 
 func symKey(v ssa.Value) string { return symKeyF(v, nil, 0) }
@@ -119,6 +128,10 @@ func symKeyF(v ssa.Value, fr *symFrame, depth int) string {
 func symAddrKey(a ssa.Value, fr *symFrame, depth int) string {
 	switch x := a.(type) {
 	case *ssa.FieldAddr:
+		if al, ok := x.X.(*ssa.Alloc); ok && al.Comment != "" {
+			// a local struct variable (or composite literal): name it by the variable
+			return al.Comment + "." + fieldVarOfAddr(x).Name()
+		}
 		return symKeyF(x.X, fr, depth+1) + "." + fieldVarOfAddr(x).Name()
 	case *ssa.IndexAddr:
 		return symKeyF(x.X, fr, depth+1) + "[" + symKeyF(x.Index, fr, depth+1) + "]"
@@ -172,6 +185,7 @@ type symResult struct {
 	Known   []bool
 	Effects []string // calls executed for effect and stores, in order
 	Undec   string   // non-empty: the run needed this expression
+	Stopped ssa.Instruction
 }
 
 // symExec runs fn under env. paramKeys optionally renames parameters (used for
@@ -215,10 +229,21 @@ func symExecF(fn *ssa.Function, env map[string]int64, fr *symFrame, depth int) s
 		return 0, false
 	}
 	b := fn.Blocks[0]
+	first := 0
+	if fr.start != nil {
+		b, first = fr.start.B, fr.start.I+1
+	}
 	var prev *ssa.BasicBlock
 	for steps := 0; steps < 10000; steps++ {
 		var next *ssa.BasicBlock
-		for _, ins := range b.Instrs {
+		for idx, ins := range b.Instrs {
+			if idx < first {
+				continue
+			}
+			if fr.stop != nil && fr.stop(ins) {
+				res.Stopped = ins
+				return res
+			}
 			switch x := ins.(type) {
 			case *ssa.Phi:
 				for i, p := range b.Preds {
@@ -318,6 +343,8 @@ func symExecF(fn *ssa.Function, env map[string]int64, fr *symFrame, depth int) s
 					}
 				}
 				res.Effects = append(res.Effects, "store "+symAddrKey(x.Addr, fr, 0)+" = "+symKeyF(x.Val, fr, 0))
+			case *ssa.MapUpdate:
+				res.Effects = append(res.Effects, "mapupdate "+symKeyF(x.Map, fr, 0)+"["+symKeyF(x.Key, fr, 0)+"] = "+symKeyF(x.Value, fr, 0))
 			case *ssa.If:
 				c, ok := get(x.Cond)
 				if !ok {
@@ -355,6 +382,7 @@ func symExecF(fn *ssa.Function, env map[string]int64, fr *symFrame, depth int) s
 			return res
 		}
 		prev, b = b, next
+		first = 0
 	}
 	res.Undec = "step bound"
 	return res
